@@ -33,6 +33,7 @@ const (
 	runHardLimit  = 60 * time.Second
 	postCloseOps  = 4
 	maxCopiesARun = 2
+	bulkMaxRun    = 2500 * time.Millisecond // ... and so does a bulk-mode run
 	backupMaxRun  = 2000 * time.Millisecond // a backup-mode run issues Close at the latest after this long
 )
 
@@ -367,7 +368,7 @@ func (c *child) runStress() {
 				time.Sleep(time.Duration(d) * time.Microsecond)
 			}
 		}
-		idx, err = bleve.NewUsing(path, sw.Mapping(), scorch.Name, scorch.Name, sw.ScorchConfig(in.Layout))
+		idx, err = bleve.NewUsing(path, sw.Mapping(), scorch.Name, scorch.Name, scorchConfig(in))
 	} else {
 		var dir string
 		idx, _, dir, err = sw.Open(in.Layout)
@@ -422,6 +423,8 @@ func (c *child) runStress() {
 			r := vrand.New(in.Seed + uint64(g)*7919)
 			if in.Mode == "backup" {
 				rc.backupWorker(g, &logs[g], r)
+			} else if in.Mode == "bulk" {
+				rc.bulkWorker(g, &logs[g], r)
 			} else {
 				rc.worker(g, &logs[g], r)
 			}
@@ -445,6 +448,45 @@ func (c *child) runStress() {
 			closeOnce.Do(func() { close(closeNow) })
 		}()
 	}
+	if in.Mode == "bulk" {
+		// Close after CloseMS, in the middle of the load, but (on a slow or busy machine) not before as many
+		// batches as there are writers have got through and two were in progress at once; when the option
+		// set makes the persister wait for the merger, Close is issued at a moment at which it is
+		// waiting (its pause / resume counters differ).  Never later than bulkMaxRun
+		wantPause := in.Layout.Config == "scorch-disk" && in.Scorch != nil && in.Scorch.NapUnder >= 1 && in.Scorch.NapUnder <= 3
+		var st *scorch.Stats
+		if adv, err := idx.Advanced(); err == nil {
+			if sc, ok := adv.(*scorch.Scorch); ok {
+				st, _ = sc.Stats().(*scorch.Stats)
+			}
+		}
+		paused := func() bool {
+			return st != nil && atomic.LoadUint64(&st.TotPersisterSlowMergerPause) > atomic.LoadUint64(&st.TotPersisterSlowMergerResume)
+		}
+		defer func() {
+			if st != nil {
+				c.out.PersisterPauses = int(atomic.LoadUint64(&st.TotPersisterSlowMergerPause))
+			}
+		}()
+		go func() {
+			t0 := time.Now()
+			for {
+				el := time.Since(t0)
+				enough := int(rc.copiesOK.Load()) >= in.Writers && rc.maxFlight.Load() >= 2
+				if el >= time.Duration(in.CloseMS)*time.Millisecond && enough && (!wantPause || paused()) {
+					if wantPause {
+						c.out.ClosedAtHook = true
+					}
+					break
+				}
+				if el >= bulkMaxRun || rc.stop.Load() {
+					break
+				}
+				time.Sleep(200 * time.Microsecond)
+			}
+			closeOnce.Do(func() { close(closeNow) })
+		}()
+	}
 	// closers
 	var cg sync.WaitGroup
 	for k := 0; k < nClosers; k++ {
@@ -452,8 +494,8 @@ func (c *child) runStress() {
 		go func(k int) {
 			defer cg.Done()
 			closeAfter := time.Duration(in.CloseMS) * time.Millisecond
-			if in.Mode == "backup" {
-				closeAfter = backupMaxRun // closeNow comes earlier, as soon as the run has seen enough
+			if in.Mode == "backup" || in.Mode == "bulk" {
+				closeAfter = bulkMaxRun // closeNow comes earlier, as soon as the run has seen enough
 			}
 			select {
 			case <-closeNow:
@@ -658,6 +700,11 @@ func (rc *runCtx) worker(g int, log *[]opRec, r *vrand.R) {
 		case "delete":
 			rc.do(g, log, kind, func() error { return idx.Delete(sw.DocName(id)) })
 		case "batch":
+			if in.BatchMax > 0 {
+				n := r.Range(in.BatchMin, in.BatchMax)
+				rc.do(g, log, kind, func() error { return rc.bigBatch(g, id, n, ver) })
+				continue
+			}
 			rc.do(g, log, kind, func() error {
 				b := idx.NewBatch()
 				for k := 0; k < 2+id%3; k++ {
@@ -754,6 +801,120 @@ func (rc *runCtx) worker(g int, log *[]opRec, r *vrand.R) {
 			dst := filepath.Join(rc.tmp, fmt.Sprintf("c%d-%d", g, ver))
 			rc.do(g, log, kind, func() error { return idx.(bleve.IndexCopyable).CopyTo(bleve.FileSystemDirectory(dst)) })
 			os.RemoveAll(dst)
+		}
+	}
+}
+
+// ---------------------------------------------------------------- scorch option sets, bulk mode
+
+// scorchConfig: the configuration of a scorch-disk index; an explicit option set replaces the one
+// named by Layout.Opts.
+func scorchConfig(in In) map[string]interface{} {
+	kvc := sw.ScorchConfig(in.Layout)
+	if o := in.Scorch; o != nil {
+		kvc["scorchPersisterOptions"] = map[string]interface{}{"PersisterNapUnderNumFiles": o.NapUnder, "PersisterNapTimeMSec": o.NapMS,
+			"NumPersisterWorkers": o.PWorkers, "MaxSizeInMemoryMergePerWorker": o.MaxMem}
+		delete(kvc, "scorchMergePlanOptions")
+		mo := map[string]interface{}{}
+		if o.SegsPerTier > 0 {
+			mo["MaxSegmentsPerTier"] = o.SegsPerTier
+		}
+		if o.TierGrowth > 0 {
+			mo["TierGrowth"] = o.TierGrowth
+		}
+		if o.SegsPerTask > 0 {
+			mo["SegmentsPerMergeTask"] = o.SegsPerTask
+		}
+		if o.FloorSize > 0 {
+			mo["FloorSegmentSize"] = o.FloorSize
+		}
+		if len(mo) > 0 {
+			kvc["scorchMergePlanOptions"] = mo
+		}
+		if o.SlowMergerUS > 0 {
+			var mu sync.Mutex
+			er := vrand.New(in.Seed ^ 0x51ed270b0b1f7a3d)
+			scorch.RegistryEventCallbacks["c11-slow-merger"] = func(ev scorch.Event) bool {
+				if ev.Kind != scorch.EventKindPreMergeCheck {
+					return true
+				}
+				mu.Lock()
+				d, goOn := er.Intn(o.SlowMergerUS), !er.Chance(1, 4)
+				mu.Unlock()
+				time.Sleep(time.Duration(d) * time.Microsecond)
+				return goOn
+			}
+			kvc["eventCallbackName"] = "c11-slow-merger"
+		}
+	}
+	return kvc
+}
+
+const bulkIDs = 600 // document ids used by large batches
+
+// bigBatch issues one batch of n operations (mostly updates, some deletions) over bulkIDs ids.
+func (rc *runCtx) bigBatch(g, id, n int, ver int64) error {
+	b := rc.idx.NewBatch()
+	for k := 0; k < n; k++ {
+		d := (id*131 + k*7) % bulkIDs
+		if k%11 == 10 {
+			b.Delete(sw.DocName(d))
+		} else if err := b.Index(sw.DocName(d), sw.DocFor(d, ver)); err != nil {
+			return err
+		}
+	}
+	b.SetInternal([]byte(sw.KeyName(g)), []byte(fmt.Sprint(ver)))
+	nf := rc.inflight.Add(1)
+	for {
+		m := rc.maxFlight.Load()
+		if nf <= m || rc.maxFlight.CompareAndSwap(m, nf) {
+			break
+		}
+	}
+	err := rc.idx.Batch(b)
+	rc.inflight.Add(-1)
+	if err == nil {
+		rc.copiesOK.Add(1)
+	}
+	return err
+}
+
+// bulkWorker: goroutines 0..Writers-1 issue large batches one after the other (no pause), the others
+// search and count.  All go on for a few operations after Close has returned.
+func (rc *runCtx) bulkWorker(g int, log *[]opRec, r *vrand.R) {
+	idx := rc.idx
+	in := rc.c.in
+	after := 0
+	start := time.Now()
+	ver := int64(1)
+	for it := 0; !rc.stop.Load(); it++ {
+		closed := rc.closeReturned.Load() != 0
+		if closed {
+			after++
+			if after > postCloseOps+g%3 {
+				return
+			}
+		}
+		if time.Since(start) > 30*time.Second {
+			return
+		}
+		id := r.Intn(bulkIDs)
+		ver++
+		if g < in.Writers {
+			n := r.Range(in.BatchMin, in.BatchMax)
+			rc.do(g, log, "batch", func() error { return rc.bigBatch(g, id, n, ver) })
+			continue
+		}
+		if it%2 == 0 {
+			rc.do(g, log, "search", func() error {
+				_, err := idx.Search(rc.request(id))
+				return err
+			})
+		} else {
+			rc.do(g, log, "doccount", func() error { _, err := idx.DocCount(); return err })
+		}
+		if !closed {
+			time.Sleep(time.Duration(r.Intn(2000)) * time.Microsecond)
 		}
 	}
 }
